@@ -28,7 +28,7 @@ class IdArr:
 
 def offset_task(ctx):
     T.reset()
-    e = M.Engine(ctx.mir(), prune_ms=2000, max_steps=200000)
+    e = M.Engine(ctx.mir(), prune_ms=300, max_steps=200000)
     ts = T.var('ts', 1, 65535); tick = T.var('tick', -(1 << 31), (1 << 31) - 1); k = T.var('k', -(1 << 31), (1 << 31) - 1)
     start = T.fresh('start', -(1 << 31), (1 << 31) - 1)
     # an initialised array starts at a multiple of the spacing, not below MIN_TICK - 88*ts (checked at initialisation: C13/C18)
@@ -46,8 +46,10 @@ def offset_task(ctx):
     anchor_fn = [f for f in e.mir.fns if re.search(ANCHOR + '$', f)]
     assert len(anchor_fn) == 1, anchor_fn
     obls = []
-    pin = [(p, r) for p, r in e.run(PINO, [M.Ref(fr0, '_901'), I(tick, 'i32'), I(ts, 'u16')], Path(list(pre)))]
+    import sys, time as _t; _t0 = _t.time()
+    pin = [(p, r) for p, r in e.run(PINO, [M.Ref(fr0, '_901'), I(tick, 'i32'), I(ts, 'u16')], Path([T.cmp('<=', start, C(MAX_TICK)), T.cmp('>=', start, C(MIN_TICK - 88 * 65535))]))]
     n_pairs = 0
+    print('pino paths', len(pin), round(_t.time() - _t0), 's', file=sys.stderr)
     some_seen = none_seen = 0
     for i, (pp, pr) in enumerate(pin):
         if isinstance(pr, Panic):
@@ -56,7 +58,7 @@ def offset_task(ctx):
             n_pairs += 1
             tag = f'offset:pair{i}.{j}'
             if isinstance(ar, Panic):
-                o = M.Obligation(f'{tag}:anchor_no_panic', ap.pc, FALSE, note=ar.msg); o.replay = None; obls.append(o); continue
+                o = M.Obligation(f'{tag}:anchor_no_panic', ap.pc + pre, FALSE, note=ar.msg); o.replay = None; obls.append(o); continue
             if pr.var == 'Some':
                 some_seen += 1
                 off = pr.fields[0].t
@@ -65,16 +67,16 @@ def offset_task(ctx):
                     note = 'both find the tick: same slot'
                 else:
                     g = FALSE; note = 'Pinocchio finds a slot, Anchor reports TickNotFound: the pair must be infeasible'
-                o = M.Obligation(f'{tag}:same_slot', ap.pc, g, note=note)
+                o = M.Obligation(f'{tag}:same_slot', ap.pc + pre, g, note=note)
                 o.replay = None; obls.append(o)
-                o = M.Obligation(f'{tag}:slot_is_the_tick', ap.pc, T.and_(T.cmp('=', T.add(start, T.mul(off, ts)), tick), T.cmp('<', off, C(88)), T.cmp('>=', off, C(0)),
+                o = M.Obligation(f'{tag}:slot_is_the_tick', ap.pc + pre, T.and_(T.cmp('=', T.add(start, T.mul(off, ts)), tick), T.cmp('<', off, C(88)), T.cmp('>=', off, C(0)),
                                                                          T.cmp('>=', tick, C(MIN_TICK)), T.cmp('<=', tick, C(MAX_TICK))),
                                  note='the offset addresses exactly this tick: start + offset*spacing == tick, offset < 88, tick within the protocol bounds')
                 o.replay = None; obls.append(o)
             else:
                 none_seen += 1
                 g = FALSE if ar.var == 'Ok' else TRUE
-                o = M.Obligation(f'{tag}:both_not_found', ap.pc, g, note='Pinocchio reports no slot: Anchor must report TickNotFound (pair with Ok infeasible)')
+                o = M.Obligation(f'{tag}:both_not_found', ap.pc + pre, g, note='Pinocchio reports no slot: Anchor must report TickNotFound (pair with Ok infeasible)')
                 o.replay = None; obls.append(o)
     ctx.extra['offset_pairs'] = n_pairs
     ctx.functions.update(e.executed)
